@@ -218,6 +218,8 @@ def discharge(ctx, f, an, site):
                             return 0 <= c2 < 2**32
                         if e2.k == "field" and e2.a[1] == "0" and e2.a[0].k == "binop" and e2.a[0].a[0].startswith("Add"):
                             return all(lengthy_e(x) for x in (e2.a[0].a[1], e2.a[0].a[2]))
+                        if e2.k == "field" and e2.a[1] == "payload_length" and header_source(e2.a[0])[0] is not None:
+                            return True  # a successfully decoded header's payload fits in the buffer it was read from
                         return e2.k == "call" and e2.a[0].name in ("len", "length", "capacity", "size", "length_with_payload", "payload_length") and e2.a[0].krate in ("core", "alloc", "std", "bytes", "alloy_rlp", "enr")
                     if all(lengthy(o) for o in st.rv.ops):
                         return ("lib", "sum of in-memory buffer lengths / small constants cannot overflow usize")
@@ -275,6 +277,12 @@ def discharge(ctx, f, an, site):
         if sub is not None:
             return ("lib", "hex::encode of a [u8;%d] is %d ASCII characters: the range %d..%d is in bounds and on character boundaries" % (sub[0].a[0].targs[0].get("n", 0) if sub[0].a[0].targs else 0, 2 * (sub[0].a[0].targs[0].get("n", 0) if sub[0].a[0].targs else 0), sub[1], sub[2]))
     if name in ("split_at", "split_at_mut") and len(args) == 2:
+        # payload.split_at(h.payload_length) after Header::decode(payload) == Ok(h)
+        e = strip(args[1])
+        if e.k == "field" and e.a[1] == "payload_length":
+            p, via_expect = header_source(e.a[0])
+            if p is not None and header_guards_slice(f, an, p, t.args[0], bb, via_expect):
+                return ("guard", "Header::decode(p) == Ok(h) guarantees p.len() >= h.payload_length, and p is untouched in between")
         k = const_int(args[1])
         bl = known_len(ctx, f, an, args[0], bb)
         if bl is None:
